@@ -105,11 +105,85 @@ fn check_case(o: &mut Outcome, lens: &[usize], plans: &[Vec<usize>]) {
     }
 }
 
-/// the backends' private digest / MAC writer adapters, observed through tokens: a token only equals the
-/// reference model's if the adapter fed exactly the PAE bytes (long pieces, three-fragment header piece)
-fn adapters<V: crate::backends::Full>(p: &mut Property) {
+/// one token operation checked against the specification: `kind` 0 = local (encrypt with a fixed nonce equals
+/// the model; the model's token decrypts), 1 = public (sign: signature over the spec's PAE bytes; verify accepts),
+/// 2 = public, forged (a signature over different bytes is rejected). `which` selects the long piece.
+fn adapter_op<V: crate::backends::Full>(o: &mut Outcome, kind: usize, which: usize, len: usize, tag: &str) {
     use crate::keys;
     use crate::ops::{self, Nonce, join_token, split_token};
+    let name = V::NAME;
+    let piece = ["message", "footer", "assertion"][which];
+    let long = content(len, 5);
+    let short = b"s".to_vec();
+    let (msg, ft, ad): (Vec<u8>, Vec<u8>, Vec<u8>) = match which {
+        0 => (long.clone(), short.clone(), short.clone()),
+        1 => (short.clone(), long.clone(), short.clone()),
+        _ => (short.clone(), short.clone(), long.clone()),
+    };
+    let ad = if V::assertions() { ad } else { vec![] };
+    let ks = keys::keyset::<V>(false, 0);
+    if kind == 0 {
+        let kb = &ks.locals[2].bytes;
+        let key: [u8; 32] = kb[..].try_into().unwrap();
+        let nonce = vec![0x42u8; V::nonce_len()];
+        let body = spec::local_encrypt(V::VER, "", &key, &nonce, &msg, &ft, &ad);
+        let want = join_token(&format!("v{}.local.", V::VER), &body, if ft.is_empty() { None } else { Some(&ft) });
+        match subject(|| ops::enc::<V>(&keys::local::<V>(kb), &msg, Some(&ft), &ad, &Nonce::Fixed(nonce.clone()))) {
+            Ok(Ok(t)) if t == want => o.class("adapter-fed-pae-bytes"),
+            Ok(Ok(t)) => o.violate(format!("adapters/{name}/local{tag}"), format!("token differs from the reference model with a {len}-byte {piece}: the MAC adapter did not receive the PAE bytes"), json!({"got": t, "want": want})),
+            other => o.violate(format!("adapters/{name}/local-failed{tag}"), format!("{:?}", other.map(|r| r.is_ok())), json!({})),
+        }
+        match subject(|| ops::dec::<V>(&keys::local::<V>(kb), &want, &ad)) {
+            Ok(Ok((c, _))) if c == msg => o.class("adapter-fed-pae-bytes"),
+            other => o.violate(format!("adapters/{name}/local-decrypt{tag}"), format!("the specification's token with a {len}-byte {piece} is not decrypted to its message: {:?}", other.map(|r| r.is_ok())), json!({"token": want})),
+        }
+    } else {
+        let skb = &ks.secrets[0].bytes;
+        let sk = keys::secret::<V>(skb);
+        let pkb = keys::key_bytes(&sk.public_key());
+        let pre = spec::public_preauth(V::VER, "", &pkb, &msg, &ft, &ad);
+        match subject(|| ops::sign::<V>(&sk, &msg, Some(&ft), &ad, &Nonce::Lib)) {
+            Ok(Ok(t)) => {
+                let parts = split_token(&t);
+                let sig_ok = parts.as_ref().map(|(_, b, _)| {
+                    let sig = &b[b.len().saturating_sub(V::sig_len())..];
+                    match V::VER {
+                        1 => spec::rsa_pss_verify_independent(&pkb, &pre, sig),
+                        3 => spec::p384_verify_independent(&pkb, &pre, sig),
+                        _ => sig == spec::ed25519_sign(skb, &pre),
+                    }
+                });
+                if kind == 1 {
+                    if sig_ok == Some(true) {
+                        o.class("adapter-fed-pae-bytes");
+                    } else {
+                        o.violate_env(format!("adapters/{name}/public{tag}"), format!("signature is not over the specification's PAE bytes with a {len}-byte {piece}"), json!({"token": t}));
+                    }
+                    // and the verifying adapter accepts it
+                    match subject(|| ops::verify::<V>(&sk.public_key(), &t, &ad)) {
+                        Ok(Ok((c, _))) if c == msg => {}
+                        other => o.violate_env(format!("adapters/{name}/public-verify{tag}"), format!("own token rejected: {:?}", other.map(|r| r.is_ok())), json!({"token": t})),
+                    }
+                } else if let Some((h, b, f)) = parts {
+                    // forged: the signature of this token moved under a message that differs in its last byte
+                    let mut b2 = b.clone();
+                    let at = b2.len() - V::sig_len() - 1;
+                    b2[at] ^= 1;
+                    let forged = join_token(&h, &b2, f.as_deref());
+                    match subject(|| ops::verify::<V>(&sk.public_key(), &forged, &ad)) {
+                        Ok(Err(_)) => o.class("forged-rejected"),
+                        other => o.violate_env(format!("adapters/{name}/public-forged{tag}"), format!("a signature over different bytes is not rejected: {:?}", other.map(|r| r.is_ok())), json!({"token": forged})),
+                    }
+                }
+            }
+            other => o.violate_env(format!("adapters/{name}/public-failed{tag}"), format!("{:?}", other.map(|r| r.is_ok())), json!({})),
+        }
+    }
+}
+
+/// the backends' private digest / MAC writer adapters, observed through tokens: a token only equals the
+/// reference model's if the adapter fed exactly the PAE bytes (long pieces, three-fragment header piece)
+fn adapters<V: crate::backends::Full>(p: &mut Property, thorough: bool) {
     let name = V::NAME;
     let lens: [usize; 9] = [0, 1, 127, 128, 129, 255, 256, 257, 600];
     let n = (lens.len() * 3 * 2) as u64;
@@ -117,68 +191,62 @@ fn adapters<V: crate::backends::Full>(p: &mut Property) {
         Sub::new(
             format!("adapters/{name}"),
             n,
-            format!("{{local, public}} x the long piece is the {{message, footer, assertion}} x its length in {lens:?}: the token equals the reference model's (local, fixed nonce; Ed25519) or its signature is valid over the specification's PAE bytes under an independent verifier (ECDSA, RSA-PSS)"),
+            format!("{{local, public}} x the long piece is the {{message, footer, assertion}} x its length in {lens:?}: the token equals the reference model's (local, fixed nonce; Ed25519) or its signature is valid over the specification's PAE bytes under an independent verifier (ECDSA, RSA-PSS); the model's local token decrypts"),
             move |idx, describe| {
                 let local = idx % 2 == 0;
                 let which = ((idx / 2) % 3) as usize;
                 let len = lens[(idx / 6) as usize];
                 let mut o = Outcome::new();
-                let long = content(len, 5);
-                let short = b"s".to_vec();
-                let (msg, ft, ad): (Vec<u8>, Vec<u8>, Vec<u8>) = match which {
-                    0 => (long.clone(), short.clone(), short.clone()),
-                    1 => (short.clone(), long.clone(), short.clone()),
-                    _ => (short.clone(), short.clone(), long.clone()),
-                };
-                let ad = if V::assertions() { ad } else { vec![] };
                 if describe {
                     o.sample = Some(json!({"backend": name, "local": local, "long_piece": (["message", "footer", "assertion"][which]), "len": len}));
                 }
-                let ks = keys::keyset::<V>(false, 0);
-                if local {
-                    let kb = &ks.locals[2].bytes;
-                    let key: [u8; 32] = kb[..].try_into().unwrap();
-                    let nonce = vec![0x42u8; V::nonce_len()];
-                    let body = spec::local_encrypt(V::VER, "", &key, &nonce, &msg, &ft, &ad);
-                    let want = join_token(&format!("v{}.local.", V::VER), &body, if ft.is_empty() { None } else { Some(&ft) });
-                    match subject(|| ops::enc::<V>(&keys::local::<V>(kb), &msg, Some(&ft), &ad, &Nonce::Fixed(nonce.clone()))) {
-                        Ok(Ok(t)) if t == want => o.class("adapter-fed-pae-bytes"),
-                        Ok(Ok(t)) => o.violate(format!("adapters/{name}/local"), format!("token differs from the reference model with a {len}-byte {}: the MAC adapter did not receive the PAE bytes", ["message", "footer", "assertion"][which]), json!({"got": t, "want": want})),
-                        other => o.violate(format!("adapters/{name}/local-failed"), format!("{:?}", other.map(|r| r.is_ok())), json!({})),
-                    }
-                } else {
-                    let skb = &ks.secrets[0].bytes;
-                    let sk = keys::secret::<V>(skb);
-                    let pkb = keys::key_bytes(&sk.public_key());
-                    let pre = spec::public_preauth(V::VER, "", &pkb, &msg, &ft, &ad);
-                    match subject(|| ops::sign::<V>(&sk, &msg, Some(&ft), &ad, &Nonce::Lib)) {
-                        Ok(Ok(t)) => {
-                            let sig_ok = split_token(&t).map(|(_, b, _)| {
-                                let sig = &b[b.len().saturating_sub(V::sig_len())..];
-                                match V::VER {
-                                    1 => spec::rsa_pss_verify_independent(&pkb, &pre, sig),
-                                    3 => spec::p384_verify_independent(&pkb, &pre, sig),
-                                    _ => sig == spec::ed25519_sign(skb, &pre),
-                                }
-                            });
-                            if sig_ok == Some(true) {
-                                o.class("adapter-fed-pae-bytes");
-                            } else {
-                                o.violate_env(format!("adapters/{name}/public"), format!("signature is not over the specification's PAE bytes with a {len}-byte {}", ["message", "footer", "assertion"][which]), json!({"token": t}));
-                            }
-                            // and the verifying adapter accepts it
-                            match subject(|| ops::verify::<V>(&sk.public_key(), &t, &ad)) {
-                                Ok(Ok((c, _))) if c == msg => {}
-                                other => o.violate_env(format!("adapters/{name}/public-verify"), format!("own token rejected: {:?}", other.map(|r| r.is_ok())), json!({"token": t})),
-                            }
-                        }
-                        other => o.violate_env(format!("adapters/{name}/public-failed"), format!("{:?}", other.map(|r| r.is_ok())), json!({})),
-                    }
-                }
+                adapter_op::<V>(&mut o, if local { 0 } else { 1 }, which, len, "");
                 o
             },
         )
         .witness(&["adapter-fed-pae-bytes"]),
+    );
+    // operation sequences on one thread: a writer that is kept between tokens (scratch buffer, cached MAC state)
+    // must hand every later token exactly its own PAE bytes. Every sequence runs on a fresh OS thread, so
+    // whatever a thread keeps starts empty and is only what the sequence itself left behind.
+    const SEQ_LENS: [usize; 4] = [1, 600, 3000, 9000];
+    let alphabet: Vec<(usize, usize)> = (0..3).flat_map(|k| SEQ_LENS.iter().map(move |l| (k, *l))).collect();
+    let depth = if thorough { 3 } else { 2 };
+    let a = alphabet.len() as u64;
+    p.subs.push(
+        Sub::new(
+            format!("adapter-sequences/{name}"),
+            a.pow(depth),
+            format!("every sequence of {depth} token operations on one fresh thread over {{local encrypt+decrypt, public sign+verify, public verify of a forged token}} x long-piece lengths {SEQ_LENS:?} (the long piece rotates with the position): every operation of the sequence meets the single-operation oracle (equals the reference model / valid under the independent verifier / forged rejected)"),
+            move |idx, describe| {
+                let ix = unrank(idx, &vec![a; depth as usize]);
+                let seq: Vec<(usize, usize)> = ix.iter().map(|i| alphabet[*i]).collect();
+                let seq2 = seq.clone();
+                let mut o = std::thread::scope(|s| {
+                    s.spawn(move || {
+                        let mut o = Outcome::new();
+                        o.evals = 0;
+                        for (pos, (kind, len)) in seq2.iter().enumerate() {
+                            o.evals += 1;
+                            adapter_op::<V>(&mut o, *kind, pos % 3, *len, &format!("/after-{pos}-operations"));
+                        }
+                        o
+                    })
+                    .join()
+                })
+                .unwrap_or_else(|_| {
+                    let mut o = Outcome::new();
+                    o.violate(format!("adapters/{name}/sequence-panic"), "the sequence thread panicked".to_string(), json!({}));
+                    o
+                });
+                o.nontrivial = o.evals;
+                if describe {
+                    o.sample = Some(json!({"backend": name, "sequence": seq.iter().map(|(k, l)| format!("{}:{l}", ["local", "public", "public-forged"][*k])).collect::<Vec<_>>() }));
+                }
+                o
+            },
+        )
+        .witness(&["adapter-fed-pae-bytes", "forged-rejected"]),
     );
 }
 
@@ -317,12 +385,12 @@ pub fn build(ctx: &Ctx) -> Property {
         })
         .witness(&["injective-in-scope"]),
     );
-    adapters::<crate::backends::V1>(&mut p);
-    adapters::<crate::backends::V2>(&mut p);
-    adapters::<crate::backends::V3>(&mut p);
-    adapters::<crate::backends::V3L>(&mut p);
-    adapters::<crate::backends::V4>(&mut p);
-    adapters::<crate::backends::V4S>(&mut p);
+    adapters::<crate::backends::V1>(&mut p, ctx.tier.pick(false, true));
+    adapters::<crate::backends::V2>(&mut p, ctx.tier.pick(false, true));
+    adapters::<crate::backends::V3>(&mut p, ctx.tier.pick(false, true));
+    adapters::<crate::backends::V3L>(&mut p, ctx.tier.pick(false, true));
+    adapters::<crate::backends::V4>(&mut p, ctx.tier.pick(false, true));
+    adapters::<crate::backends::V4S>(&mut p, ctx.tier.pick(false, true));
     p.assume("the backend digest / MAC writer adapters are private; they are observed through tokens (sub adapters/*, and C03 / C07): a token only matches the reference model, or verifies under an independent verifier, if the adapter fed exactly the PAE bytes (the three-fragment header piece included)");
     p
 }
